@@ -342,6 +342,17 @@ func TestDrv_C12(t *testing.T) {
 	}
 	for c := 0; c < nRandom; c++ {
 		n := 1 + r.Intn(20)
+		if c == 1 { // round bounds beyond an hour: 1h, 1h10m, 90m, 2h, 1h0m10s, 3h20m50s ...
+			hour := uint64(3600e9)
+			toks := []uint64{0, hour, hour + 10e9, hour + 600e9, hour + 1800e9, 2 * hour, 2*hour + 30e9, 3*hour + 1250e9, 10 * hour}
+			if bounds := d.parse(r, toks); bounds != nil {
+				lats := make([]uint64, 200)
+				for i := range lats {
+					lats[i] = uint64(r.Int63n(int64(11 * hour)))
+				}
+				d.run(bounds, lats, nil)
+			}
+		}
 		if c%7 == 0 {
 			n = 40 + r.Intn(60) // many buckets
 		}
